@@ -59,6 +59,7 @@ fn def_tid(b: usize, n: usize) -> Tid {
 enum Mode {
     General,
     Chain,    // conditional chains re-testing shared conditions, empty conditional blocks
+    Join,     // a block entered over a c-conditioned edge AND unconditional edges / call returns, then a re-test of c
     Forward,  // many empty forwarding blocks, cycles of them, back edges to the entry block
     Prologue, // SP = SP -+ c ; SP = SP & -2^k prologue
     Memory,   // loads / stores, registers re-assigned by loads
@@ -160,6 +161,21 @@ impl<'a> FnGen<'a> {
             if roll < mem_w / 2 {
                 // load
                 let size = *self.rng.pick(&[8, 8, 8, 4, 2, 1]);
+                if size == 8 && self.rng.chance(1, 4) {
+                    // pointer chasing: r := address computation ; r := [r (+ off)]
+                    let r = reg(*self.rng.pick(&GPRS), 8);
+                    let d = 1 + self.rng.below(2) as u32;
+                    let mut e = eg(self.rng).expr(Ty::Int(8), d, ctx);
+                    if self.rng.chance(2, 3) {
+                        // the address depends on the old value of r (so the assignment cannot be propagated into the load)
+                        let op = *self.rng.pick(&[IntAdd, IntAdd, IntSub, IntXOr, IntAnd]);
+                        e = if self.rng.chance(1, 2) { bin(op, var(&r), cst(8 * self.rng.range(1, 8), 8)) } else { bin(op, var(&r), e) };
+                    }
+                    self.push_def(defs, b, Def::Assign { var: r.clone(), value: e });
+                    let a = if self.rng.chance(1, 2) { var(&r) } else { bin(IntAdd, var(&r), cst(8 * self.rng.range(-2, 4), 8)) };
+                    self.push_def(defs, b, Def::Load { var: r, address: a });
+                    continue;
+                }
                 let a = self.addr_expr(ctx);
                 let v = if size == 8 { self.dest(Ty::Int(8), ctx) } else { ctx.fresh(Ty::Int(size)) };
                 self.push_def(defs, b, Def::Load { var: v.clone(), address: a });
@@ -326,6 +342,9 @@ impl<'a> FnGen<'a> {
 
     fn gen_function(&mut self) -> Term<Sub> {
         self.nblocks = 2 + self.rng.below(if self.mode == Mode::General { 9 } else { 10 }) as usize;
+        if self.mode == Mode::Join {
+            self.nblocks = self.nblocks.max(8);
+        }
         let n = self.nblocks;
         // shared conditions of conditional chains: over flags / registers
         let nc = 1 + self.rng.below(2);
@@ -370,6 +389,7 @@ impl<'a> FnGen<'a> {
                 let empty_p = match self.mode {
                     Mode::Forward => 55,
                     Mode::Chain => 40,
+                    Mode::Join => 30,
                     _ => 18,
                 };
                 let ndefs = if self.rng.below(100) < empty_p { 0 } else { 1 + self.rng.below(6) as usize };
@@ -377,6 +397,101 @@ impl<'a> FnGen<'a> {
                 jmps = self.gen_jmps(b, b + 1 == n, &mut defs, &mut ctx, &mut ind);
             }
             blocks.push(Term { tid: blk_tid(b), term: Blk { defs, jmps, indirect_jmp_targets: ind } });
+        }
+        // planted pattern "several predecessors of different kinds in front of a re-test of the same condition":
+        //   b0: if c goto b2 else b1          (b2 is entered with c true over this edge ...)
+        //   b1: defs ; goto b2 | call .. ret=b2 | goto b4, b4 (empty, maybe b4 -> b5 empty) -> b2
+        //                                     (... and with c FALSE over an unconditional edge / a call return /
+        //                                      a chain of empty forwarding blocks)
+        //   b2: defs that do not redefine the inputs of c ; goto b3
+        //   b3: (empty) if c goto g else h    (g, h start with different stores)
+        if self.mode == Mode::Join && n >= 8 {
+            use BinOpType::*;
+            let c = self.chain_conds[0].clone();
+            let inputs: Vec<Variable> = c.input_vars().into_iter().cloned().collect();
+            let jt = |b: usize, k: usize| mk_tid(&format!("instr_{}_j{}", blk_addr(b), k), &blk_addr(b));
+            let keeps_c = |d: &Term<Def>| match &d.term {
+                Def::Assign { var, .. } | Def::Load { var, .. } => var.is_temp || !inputs.contains(var),
+                Def::Store { .. } => true,
+            };
+            let neg = self.rng.chance(1, 3);
+            let c0 = if neg {
+                if let Expression::UnOp { op: UnOpType::BoolNegate, arg } = &c { (**arg).clone() } else { un(UnOpType::BoolNegate, c.clone()) }
+            } else {
+                c.clone()
+            };
+            for b in 0..4 {
+                blocks[b].term.indirect_jmp_targets.clear();
+            }
+            blocks[0].term.defs.retain(|d| keeps_c(d));
+            blocks[0].term.jmps = if neg {
+                vec![Term { tid: jt(0, 0), term: Jmp::CBranch { target: blk_tid(1), condition: c0 } }, Term { tid: jt(0, 1), term: Jmp::Branch(blk_tid(2)) }]
+            } else {
+                vec![Term { tid: jt(0, 0), term: Jmp::CBranch { target: blk_tid(2), condition: c0 } }, Term { tid: jt(0, 1), term: Jmp::Branch(blk_tid(1)) }]
+            };
+            // the other way into b2
+            let kind = self.rng.below(9);
+            let keep_c_in_b1 = kind < 5 && self.rng.chance(3, 4); // (a call havocs the inputs of c anyway)
+            if keep_c_in_b1 {
+                blocks[1].term.defs.retain(|d| keeps_c(d));
+            }
+            let fwd = |blocks: &mut Vec<Term<Blk>>, b: usize, to: usize| {
+                blocks[b].term.defs.clear();
+                blocks[b].term.indirect_jmp_targets.clear();
+                blocks[b].term.jmps = vec![Term { tid: jt(b, 0), term: Jmp::Branch(blk_tid(to)) }];
+            };
+            blocks[1].term.jmps = match kind {
+                0 | 1 => vec![Term { tid: jt(1, 0), term: Jmp::Branch(blk_tid(2)) }],
+                2 | 3 => {
+                    // through one or two empty forwarding blocks
+                    if self.rng.chance(1, 2) {
+                        fwd(&mut blocks, 4, 2);
+                    } else {
+                        fwd(&mut blocks, 4, 5);
+                        fwd(&mut blocks, 5, 2);
+                    }
+                    vec![Term { tid: jt(1, 0), term: Jmp::Branch(blk_tid(4)) }]
+                }
+                4 => {
+                    // a second, differently conditioned edge and an unconditional one
+                    let d = eg(self.rng).expr(Ty::Bool, 1, &Ctx::default());
+                    vec![Term { tid: jt(1, 0), term: Jmp::CBranch { target: blk_tid(6), condition: d } }, Term { tid: jt(1, 1), term: Jmp::Branch(blk_tid(2)) }]
+                }
+                5 => vec![Term { tid: jt(1, 0), term: Jmp::Call { target: mk_tid(EXT_FN, "a000"), return_: Some(blk_tid(2)) } }],
+                6 => vec![Term { tid: jt(1, 0), term: Jmp::Call { target: mk_tid(HELPER_RET, "9000"), return_: Some(blk_tid(2)) } }],
+                7 => vec![Term { tid: jt(1, 0), term: Jmp::CallInd { target: var(&reg("RBX", 8)), return_: Some(blk_tid(2)) } }],
+                _ => vec![Term { tid: jt(1, 0), term: Jmp::CallOther { description: "syscall".to_string(), return_: Some(blk_tid(2)) } }],
+            };
+            // b2 keeps c, b3 re-tests it
+            blocks[2].term.defs.retain(|d| keeps_c(d));
+            blocks[2].term.jmps = vec![Term { tid: jt(2, 0), term: Jmp::Branch(blk_tid(3)) }];
+            blocks[3].term.defs.clear();
+            let (g, h) = if self.rng.chance(1, 2) { (n - 1, n - 2) } else { (n - 2, n - 1) };
+            blocks[3].term.jmps = vec![Term { tid: jt(3, 0), term: Jmp::CBranch { target: blk_tid(g), condition: c.clone() } }, Term { tid: jt(3, 1), term: Jmp::Branch(blk_tid(h)) }];
+            for (b, tag) in [(g, 0x11i64), (h, 0x22)] {
+                blocks[b].term.defs.insert(0, Term {
+                    tid: mk_tid(&format!("instr_{}_m", blk_addr(b)), &blk_addr(b)),
+                    term: Def::Store { address: bin(IntSub, var(&sp_var()), cst(24, 8)), value: cst(tag, 8) },
+                });
+            }
+            // usually no further way into b2 and b3 (other predecessors would be yet another mix of edge kinds)
+            if self.rng.chance(3, 4) {
+                for (bi, blk) in blocks.iter_mut().enumerate() {
+                    let planted = bi <= 3 || ((kind == 2 || kind == 3) && (bi == 4 || bi == 5));
+                    if planted {
+                        continue;
+                    }
+                    for j in blk.term.jmps.iter_mut() {
+                        match &mut j.term {
+                            Jmp::Branch(t) | Jmp::CBranch { target: t, .. } if *t == blk_tid(2) || *t == blk_tid(3) => *t = blk_tid(n - 1),
+                            Jmp::Call { return_: Some(t), .. } | Jmp::CallInd { return_: Some(t), .. } | Jmp::CallOther { return_: Some(t), .. }
+                                if *t == blk_tid(2) || *t == blk_tid(3) => *t = blk_tid(n - 1),
+                            _ => (),
+                        }
+                    }
+                    blk.term.indirect_jmp_targets.retain(|t| *t != blk_tid(2) && *t != blk_tid(3));
+                }
+            }
         }
         // planted pattern "block entered only under condition c, then an empty block re-testing c":
         //   b0: if c goto b1 else ..   b1: defs (half of the time overwriting an input of c) ; goto b2
@@ -532,8 +647,9 @@ impl RawProg {
 pub fn gen_project(seed: u64, idx: u64) -> RawProg {
     let mut rng = Rng::new(seed.wrapping_mul(0x1_0000_01B3).wrapping_add(idx).wrapping_add(0xC10));
     let mode = match rng.below(20) {
-        0..=4 => Mode::General,
-        5..=8 => Mode::Chain,
+        0..=2 => Mode::General,
+        3..=5 => Mode::Chain,
+        6..=8 => Mode::Join,
         9..=12 => Mode::Forward,
         13..=15 => Mode::Prologue,
         _ => Mode::Memory,
@@ -694,6 +810,32 @@ fn feat_loadredef(s: &Term<Sub>) -> bool {
     loaded.intersection(&assigned).next().is_some()
 }
 
+/// the return site of some `CallOther` is also the target of another jump / call return / indirect jump
+/// (the CFG has no edge from a CallOther to its return site)
+fn feat_callother_join(s: &Term<Sub>) -> bool {
+    let mut sites = Vec::new();
+    for b in &s.term.blocks {
+        for j in &b.term.jmps {
+            if let Jmp::CallOther { return_: Some(r), .. } = &j.term {
+                sites.push((r.clone(), j.tid.clone()));
+            }
+        }
+    }
+    sites.iter().any(|(r, via)| {
+        s.term.blocks.iter().any(|b| {
+            b.term.indirect_jmp_targets.contains(r)
+                || b.term.jmps.iter().any(|j| {
+                    j.tid != *via
+                        && match &j.term {
+                            Jmp::Branch(t) | Jmp::CBranch { target: t, .. } => t == r,
+                            Jmp::Call { return_: Some(t), .. } | Jmp::CallInd { return_: Some(t), .. } | Jmp::CallOther { return_: Some(t), .. } => t == r,
+                            _ => false,
+                        }
+                })
+        })
+    })
+}
+
 fn find_fn(p: &Project) -> &Term<Sub> {
     &p.program.term.subs[&mk_tid("sub_1000", "1000")]
 }
@@ -707,7 +849,7 @@ fn case_event(pass: &str, idx: u64, before: &Project, after: &Project, inits: &[
            "sp": irenc::var(&before.stack_pointer_register),
            "physregs": before.register_set.iter().map(irenc::var).collect::<Vec<_>>(),
            "le": true, "seed": seed % 60000, "inits": inits, "panic": panic,
-           "f_eq1": feat_eq1(f1), "f_loadredef": feat_loadredef(f1), "f_entry_changed": e1 != e2,
+           "f_eq1": feat_eq1(f1), "f_loadredef": feat_loadredef(f1), "f_entry_changed": e1 != e2, "f_callother_join": feat_callother_join(f1),
            "raw_file": raw_file})
 }
 
